@@ -212,6 +212,49 @@ func (m *multi) DeserializeCellBlocks(msg proto.Message, b []byte) (uint32, erro
 	return nread, nil
 }
 
+// checkResponse checks that the results in the response can be matched to
+// the calls: every index is of a call that was sent, no call gets more than
+// one result and every call gets one.
+func (m *multi) checkResponse(msg proto.Message) error {
+	mr, ok := msg.(*pb.MultiResponse)
+	if !ok {
+		return fmt.Errorf("unexpected response type for Multi: %T", msg)
+	}
+	rars := mr.GetRegionActionResult()
+	if len(rars) > len(m.regions) {
+		return fmt.Errorf("got results for %d regions, expected at most %d",
+			len(rars), len(m.regions))
+	}
+	seen := make([]bool, len(m.calls))
+	for i, rar := range rars {
+		if rar.GetException() != nil {
+			for j, c := range m.calls {
+				if c != nil && c.Region() == m.regions[i] {
+					seen[j] = true
+				}
+			}
+			continue
+		}
+		for _, roe := range rar.GetResultOrException() {
+			i := roe.GetIndex()
+			if i == 0 {
+				return errors.New("no index for result in multi response")
+			} else if int64(i) > int64(len(m.calls)) || m.calls[i-1] == nil {
+				return fmt.Errorf("unexpected index %d in multi response", i)
+			} else if seen[i-1] {
+				return fmt.Errorf("more than one result for index %d in multi response", i)
+			}
+			seen[i-1] = true
+		}
+	}
+	for j, c := range m.calls {
+		if c != nil && !seen[j] {
+			return fmt.Errorf("no result for index %d in multi response", j+1)
+		}
+	}
+	return nil
+}
+
 func (m *multi) returnResults(msg proto.Message, err error) {
 	defer freeMulti(m)
 
